@@ -108,6 +108,16 @@ theorem ms_complete_empty (n : Nat) (cs : List Con) (hwf : WF (2*n) cs)
   have : x ∈ sem cs := hx
   rw [h] at this; exact this
 
+/-- `x ≥ 1 ∧ x ≤ 0` as a relation over `(x', x)` -/
+def emptyLoop : List Con := [geRow [0, 1] (-1), geRow [0, -1] 0]
+example : WF (2*1) emptyLoop ∧ (∀ c ∈ emptyLoop, c.strict = false) ∧ sem emptyLoop = ∅ := by
+  refine ⟨(wfB_iff _ _).mp (by decide), by decide, ?_⟩
+  rw [Set.eq_empty_iff_forall_notMem]
+  exact fun x hx => certInfeas_sound emptyLoop [1, 1] (by decide) ⟨x, hx⟩
+-- `μ = 0`, `y = (1,1)`, `z = 0`
+example : ∃ sol, Sat (msSystem 1 emptyLoop) sol :=
+  certFeas_sound _ [0, 0, 1, 1, 0, 0, 0, 0] 1 (by decide +kernel)
+
 /-- **`termination_test_MS` answers exactly** (closed relation, empty or not): the model of the
     Boolean test — satisfiability of the system of `fill_constraint_systems_MS`, decided by K1 — is
     `true` iff an affine ranking function exists. -/
@@ -168,6 +178,11 @@ theorem pr_original_complete (n : Nat) (cs : List Con) (hwf : WF (2*n) cs)
   obtain ⟨x, hx⟩ := Set.nonempty_iff_ne_empty.mpr hne
   exact pr_original_complete_of_farkas farkasImplied_holds n cs hwf hns ⟨x, hx⟩ mu h
 
+-- hypotheses: `decLoop` with `μ = x` (see `ms_complete`); conclusion: `λ_1 = (0,0,1)`, `λ_2 = (0,1,0)`
+example : ∃ u, Sat (prOrigSystem 1 decLoop) u ∧ prOrigMu 1 decLoop u 0 = 1 * ratPoint [1, 0] 1 0 := by
+  refine ⟨_, certFeas_point _ [0, 0, 1, 0, 1, 0] 1 (by decide +kernel), ?_⟩
+  simp [prOrigMu, col, decLoop, eqRows, geRow, Con.at, ratPoint, dot, Val.tail]
+
 theorem pr_original_complete_empty (n : Nat) (cs : List Con) (hwf : WF (2*n) cs)
     (hns : ∀ c ∈ cs, c.strict = false) (h : sem cs = ∅) : ∃ u, Sat (prOrigSystem n cs) u := by
   apply pr_original_complete_empty_of_farkas farkasInfeasible_holds n cs hwf hns
@@ -226,6 +241,13 @@ theorem pr_complete (n : Nat) (csB csA : List Con) (hB : WF n csB) (hA : WF (2*n
   obtain ⟨x, hx⟩ := Set.nonempty_iff_ne_empty.mpr hne
   exact pr_complete_of_farkas farkasImplied_holds n csB csA hB hA hnsB hnsA ⟨x, hx⟩ mu h
 
+-- the guarded decrement of `C18.lean` (`guardB`, `guardA`): closed, non-empty, `μ = x_2` bounded on the guard
+example : WF 2 guardB ∧ WF (2*2) guardA ∧ (∀ c ∈ guardB, c.strict = false) ∧ (∀ c ∈ guardA, c.strict = false) ∧
+    sem (pairRel 2 guardB guardA) ≠ ∅ := by
+  refine ⟨(wfB_iff _ _).mp (by decide), (wfB_iff _ _).mp (by decide), by decide, by decide, ?_⟩
+  apply Set.nonempty_iff_ne_empty.mp
+  exact certFeas_sound _ [1, 0, 1, 1] 1 (by decide)
+
 theorem pr_complete_empty (n : Nat) (csB csA : List Con) (hB : WF n csB) (hA : WF (2*n) csA)
     (hnsB : ∀ c ∈ csB, c.strict = false) (hnsA : ∀ c ∈ csA, c.strict = false)
     (h : sem (pairRel n csB csA) = ∅) : ∃ u, Sat (prSystem n csB csA) u := by
@@ -233,6 +255,10 @@ theorem pr_complete_empty (n : Nat) (csB csA : List Con) (hB : WF n csB) (hA : W
   rintro ⟨x, hx⟩
   have : x ∈ sem (pairRel n csB csA) := hx
   rw [h] at this; exact this
+
+-- guard `x ≥ 1`, relation `x ≤ 0` (empty pair): `u_3 = 1`, `u_2 = 1`, `u_1 = 0`
+example : ∃ u, Sat (prSystem 1 [geRow [1] (-1)] [geRow [0, -1] 0]) u :=
+  certFeas_sound _ [1, 1, 0] 1 (by decide +kernel)
 
 /-- **`termination_test_PR(before, after)` answers exactly** the question "is there an affine
     function bounded from below on the guard and decreasing by a fixed amount on the relation" -/
